@@ -81,11 +81,12 @@ def build(case):
     log = Log()
     other_ev = ev + '~unrelated'
     other_ns = ns + '/unrelated'
-    if bits[0]:
+    # for ev == '*' the exact-name key IS the catch-all key: bits 0 and 2 are forced to 0 by the generators
+    if bits[0] and ev != '*':
         obj.on(ev, handler=log.recorder('fnNsEv', co), namespace=ns)
     if bits[1]:
         obj.on('*', handler=log.recorder('fnNsStar', co), namespace=ns)
-    if bits[2]:
+    if bits[2] and ev != '*':
         obj.on(ev, handler=log.recorder('fnStarEv', co), namespace='*')
     if bits[3]:
         obj.on('*', handler=log.recorder('fnStarStar', co), namespace='*')
@@ -108,7 +109,8 @@ def build(case):
         obj.on(other_ev, handler=log.recorder('x:ns.other', co), namespace=ns)
     if case['un'] & 2:      # so has the catch-all namespace, and another namespace has everything
         obj.on(other_ev, handler=log.recorder('x:star.other', co), namespace='*')
-        obj.on(ev, handler=log.recorder('x:otherns.ev', co), namespace=other_ns)
+        if ev != '*':
+            obj.on(ev, handler=log.recorder('x:otherns.ev', co), namespace=other_ns)
         obj.on('*', handler=log.recorder('x:otherns.star', co), namespace=other_ns)
         o = cls(other_ns)
         setattr(o, 'on_' + ev, log.recorder('x:otherns.cls', co))
@@ -178,11 +180,13 @@ def oracle(case):
     kind, ns, ev = case['kind'], case['ns'], case['ev']
     b = case['bits']
     reserved = ev in DOC_RESERVED[kind]
-    if b[0]:
+    # an exact-name handler exists only for a name other than the catch-all key: an event literally
+    # named '*' is an ordinary event that nobody can register a handler of its own for
+    if b[0] and ev != '*':
         return {'res': 'invoke', 'slot': 'fnNsEv', 'args': []}
     if b[1] and not reserved:
         return {'res': 'invoke', 'slot': 'fnNsStar', 'args': [ev]}
-    if b[2]:
+    if b[2] and ev != '*':
         return {'res': 'invoke', 'slot': 'fnStarEv', 'args': [ns]}
     if b[3] and not reserved:
         return {'res': 'invoke', 'slot': 'fnStarStar', 'args': [ev, ns]}
@@ -219,10 +223,12 @@ def exhaustive_cases(reserved_by_kind):
     """2^6 presence bits (x has-the-method for each registered class) x {ordinary, each reserved
     name} x {unrelated handlers: none / same namespace / elsewhere / both} x 4 classes x 2 modes."""
     for kind in KINDS:
-        events = ['my event'] + sorted(set(reserved_by_kind[kind]) | DOC_RESERVED[kind])
+        events = ['my event', '*', '**', '*x'] + sorted(set(reserved_by_kind[kind]) | DOC_RESERVED[kind])
         for mode in ('sync', 'coroutine'):
             for ev in events:
                 for bits in itertools.product([0, 1], repeat=6):
+                    if ev == '*' and (bits[0] or bits[2]):
+                        continue        # no exact-name handler can exist for the catch-all key
                     for m5 in ([1, 0] if bits[4] else [1]):
                         for m6 in ([1, 0] if bits[5] else [1]):
                             for un in range(4):
@@ -235,14 +241,14 @@ def exhaustive_cases(reserved_by_kind):
 def gen_name(rng, kind):
     while True:
         r = rng.random()
-        if r < 0.5:
+        if r < 0.12:
+            ev = rng.choice(['*', '*', '**', '*x', 'x*', ' *'])
+        elif r < 0.5:
             ev = G.gen_event_name(rng)
         elif r < 0.7:
             ev = rng.choice(sorted(DOC_RESERVED[kind]))
         else:
             ev = G.gen_str(rng)
-        if ev == '*':
-            continue
         try:
             C.s2w(ev)
         except C.Unrepresentable:
@@ -265,8 +271,11 @@ def gen_ns(rng):
 def random_case(rng):
     kind = rng.choice(KINDS)
     bits = [int(rng.random() < 0.45) for _ in range(6)]
+    ev = gen_name(rng, kind)
+    if ev == '*':
+        bits[0] = bits[2] = 0
     return {'kind': kind, 'mode': rng.choice(['sync', 'coroutine']), 'ns': gen_ns(rng),
-            'ev': gen_name(rng, kind), 'bits': bits,
+            'ev': ev, 'bits': bits,
             'm5': int(rng.random() < 0.75), 'm6': int(rng.random() < 0.75), 'un': rng.randint(0, 3),
             'args': [G.gen_value(rng, 2, 0.15) for _ in range(rng.randint(0, 4))]}
 
@@ -308,6 +317,8 @@ def execute(ctx, cases, loop, stats, nontrivial, samples):
         ctx.count('kind.' + case['kind'])
         ctx.count('res.' + m['res'] + ('.' + m['slot'] if 'slot' in m else ''))
         ctx.count('reserved' if ans['reserved'] else 'ordinary')
+        if case['ev'] == '*':
+            ctx.count('event_named_star')
         if sum(case['bits']) >= 2:
             nontrivial.add(json.dumps([case['kind'], case['mode'], case['ns'], case['ev'], case['bits'],
                                        case['m5'], case['m6'], case['un']]))
@@ -371,6 +382,17 @@ def run(ctx):
         if not ok:
             ctx.violation('proof', 'leanchecker rejects Sio.Props.C13: ' + out[-800:], {'leanchecker': out[-800:]},
                           no_input=True)
+    # informational probe (outside the quantified domain): a namespace literally named '*'
+    try:
+        srv = make_object('server')
+        seen = []
+        srv.on('msg', handler=lambda *a: seen.append(a), namespace='*')
+        srv._trigger_event('msg', '*', 'SID', 'payload')
+        srv._trigger_event('msg', '/x', 'SID', 'payload')
+        ctx.notes.append("namespace literally named '*' (informational): handlers['*']['msg'] receives %r for "
+                         "namespace '*' and %r for namespace '/x'" % (seen[0], seen[1]))
+    except Exception as ex:      # noqa
+        ctx.notes.append('namespace-star probe failed: %r' % ex)
     C.fold_proof_failures(ctx)
     # keep the report small: one replay per distinct (kind of violation, class)
     if len(ctx.violations) > 12:
@@ -388,14 +410,16 @@ def run(ctx):
         'exhaustive_cases': len(ex), 'random_cases': len(rnd),
         'evaluations': len(ex) + len(rnd), 'distinct_nontrivial': len(nontrivial),
         'rule': 'exhaustive: 2^6 presence bits x {class has on_<event> or not, per registered class} x '
-                '{ordinary event, each reserved name of the class} x {unrelated handlers: none, same namespace, '
+                '{ordinary event, the event names "*", "**", "*x", each reserved name of the class} x {unrelated handlers: none, same namespace, '
                 'catch-all/other namespace, both} x {Server, AsyncServer, Client, AsyncClient} x {sync, coroutine '
                 'recorders}; plus random namespaces, event names (reserved ones included), argument lists. '
                 'non-trivial = at least two of the six targets registered (precedence decides)',
         'samples': samples, 'traces_validated_against_impl': len(ex) + len(rnd),
         'oracle_failures': stats['oracle_fail'], 'model_disagreements': stats['model_fail'],
     })
-    ctx.assumptions += ['namespace and event names are str without lone surrogates and different from "*"',
+    ctx.assumptions += ['namespace and event names are str without lone surrogates; event names include "*"; the '
+                        'namespace is not literally "*" (see notes: as coded the catch-all namespace then loses its '
+                        'namespace argument; theorem C13.star_namespace)',
                         'handlers are truthy callables accepting the arguments they are given',
                         'class-based namespaces do not override trigger_event']
 
